@@ -183,6 +183,84 @@ def check_kid(ctx):
                                 ctx.violation("C02:kid:other-key-tried:%s" % form, "a token verified under a key the header's kid does not designate", dict(case, signer=signer))
 
 
+def check_key_set_histories(ctx):
+    """A key set lives long and changes: keys are removed (revoked), added, replaced, in place or by assignment, between
+    look-ups.  Selection must always be by the keys the set holds NOW."""
+    import hashlib
+    import hmac
+    m = ctx.model
+    rng = ctx.rng
+    jwt = JsonWebToken(["HS256"])
+    secrets = {k: ("secret-%s-" % k).encode() + k.encode() * 24 for k in "ABCDE"}
+
+    def mk(name, kid):
+        d = {"kty": "oct", "k": R.b64u(secrets[name]).decode()}
+        if kid is not None:
+            d["kid"] = kid
+        k = JsonWebKey.import_key(d)
+        k._name = name
+        return k
+
+    def token(name, kid):
+        hdr = {"alg": "HS256"}
+        if kid is not None:
+            hdr["kid"] = kid
+        si = R.b64u(json.dumps(hdr).encode()) + b"." + R.b64u(b'{"a":1}')
+        return si + b"." + R.b64u(hmac.new(secrets[name], si, hashlib.sha256).digest())
+    kid_pool = ["k1", "k2", "k3", None]
+    for h in range(12 if ctx.tier == "quick" else 120):
+        ks = KeySet([mk("A", "k1"), mk("B", "k2")])
+        log = []
+        for step in range(rng.randint(4, 10)):
+            op = rng.choice(["find", "find", "decode", "decode", "remove", "append", "replace", "assign", "clear-one"])
+            if op == "remove" and ks.keys:
+                i = rng.randrange(len(ks.keys))
+                log.append(["remove", i])
+                ks.keys.remove(ks.keys[i])
+            elif op == "clear-one" and ks.keys:
+                i = rng.randrange(len(ks.keys))
+                log.append(["del", i])
+                del ks.keys[i]
+            elif op == "append":
+                name, kid = rng.choice("ABCDE"), rng.choice(kid_pool)
+                log.append(["append", name, kid])
+                ks.keys.append(mk(name, kid))
+            elif op == "replace" and ks.keys:
+                i, name = rng.randrange(len(ks.keys)), rng.choice("ABCDE")
+                kid = ks.keys[i].kid
+                log.append(["replace", i, name, kid])
+                ks.keys[i] = mk(name, kid)
+            elif op == "assign":
+                log.append(["assign"])
+                ks.keys = list(ks.keys)
+            else:
+                kid = rng.choice(kid_pool)
+                kids = [k.kid for k in ks.keys]
+                case = {"history": list(log), "kids": kids, "kid": kid, "op": op}
+                ctx.case(case, ("ks-history", json.dumps(log), kid, op), "kid-history:%s" % op)
+                expect = m.call("kp_find_by_kid", {"kids": kids, "kid": kid})
+                if op == "find":
+                    try:
+                        real = ks.keys.index(ks.find_by_kid(kid))
+                    except ValueError:
+                        real = None
+                    log.append(["find", kid])
+                    ctx.compare("find_by_kid:history", case, real, expect)
+                else:
+                    signer = rng.choice("ABCDE")
+                    log.append(["decode", signer, kid])
+                    try:
+                        jwt.decode(token(signer, kid), ks)
+                        acc = True
+                    except Exception:  # noqa: BLE001
+                        acc = False
+                    want = expect is not None and ks.keys[expect]._name == signer
+                    ctx.compare("kid_end_to_end:history", dict(case, signer=signer), acc, want)
+                    if acc and not any(k._name == signer and (k.kid == kid or (kid is None and len(ks.keys) == 1)) for k in ks.keys):
+                        ctx.violation("C02:kid:key-no-longer-in-the-set", "a token verified under a key that the key set no longer holds (or never designated)",
+                                      dict(case, signer=signer))
+
+
 def check_key_ops(ctx):
     m = ctx.model
     K = R.keys()
@@ -344,6 +422,7 @@ def run(ctx):
                 "14 crit values x 4 private-header sets x 3 headers; distinct_nontrivial = distinct cells")
     check_confusion(ctx)
     check_kid(ctx)
+    check_key_set_histories(ctx)
     check_key_ops(ctx)
     check_matrix(ctx)
     check_alg_values(ctx)
